@@ -4,6 +4,8 @@ from vf.harness import exc_str
 from vf.model import dexw as W
 
 MOD = "vf.checks.c17"
+KNOWN_MECHS = ("rename-leaks-to-item-sharing-the-name-string", "renamed-item-overwritten-by-rename-of-item-sharing-the-name-string",
+               "string-constant-changed-by-rename-of-item-with-equal-name")
 
 
 def build(rng):
@@ -39,7 +41,8 @@ def build(rng):
             body.append(("return-void",))
             c.add_method(nm, "V", (), W.ACC_STATIC | W.ACC_PUBLIC, W.Code(1, 0, 0, body))
             items.append({"kind": "method", "key": (cname, nm, "()V"), "orig": nm})
-    return W.write_dex(m), items, consts
+    data, w = W.write_dex(m, want_writer=True)
+    return data, w, items, consts
 
 
 def shard(ctx, arg):
@@ -47,23 +50,45 @@ def shard(ctx, arg):
     from androguard.core import dex
     rng = ctx.rng("c17", idx)
     for k in range(count):
-        data, items, consts = build(rng)
+        data, w, items, consts = build(rng)
         dx = dex.DEX(data)
-        # bind real objects
+        # bind real objects. Half of the histories bind by pool INDEX without asking any item for its name first, so that the first
+        # name query of an item can come after a rename of another item (lazily resolved names must not pick up foreign hooks)
+        lazy = rng.random() < 0.5
         objs = {}
-        for it in items:
-            if it["kind"] == "class":
-                objs[id(it)] = dx.get_class(it["key"])
-            elif it["kind"] == "field":
-                objs[id(it)] = dx.get_encoded_field_descriptor(*it["key"])
-            else:
-                objs[id(it)] = dx.get_encoded_method_descriptor(*it["key"])
+        if lazy:
+            by_midx, by_fidx, by_cls = {}, {}, {}
+            for c in dx.get_classes():
+                by_cls[c.get_class_idx()] = c
+                cd = c.get_class_data()
+                if cd is None:
+                    continue
+                for em in cd.get_direct_methods() + cd.get_virtual_methods():
+                    by_midx[em.get_method_idx()] = em
+                for ef in cd.get_static_fields() + cd.get_instance_fields():
+                    by_fidx[ef.get_field_idx()] = ef
+            for it in items:
+                if it["kind"] == "class":
+                    objs[id(it)] = by_cls.get(w.tidx[it["key"]])
+                elif it["kind"] == "field":
+                    objs[id(it)] = by_fidx.get(w.fidx[it["key"]])
+                else:
+                    objs[id(it)] = by_midx.get(w.midx[(it["key"][0], it["key"][1], "V", ())])
+            ctx.count("histories_bound_by_index_without_name_queries")
+        else:
+            for it in items:
+                if it["kind"] == "class":
+                    objs[id(it)] = dx.get_class(it["key"])
+                elif it["kind"] == "field":
+                    objs[id(it)] = dx.get_encoded_field_descriptor(*it["key"])
+                else:
+                    objs[id(it)] = dx.get_encoded_method_descriptor(*it["key"])
         if any(o is None for o in objs.values()):
             ctx.inconclusive("could not bind generated items")
             continue
         const_ins = []
         for (cname, mname), pos, s in consts:
-            em = dx.get_encoded_method_descriptor(cname, mname, "()V")
+            em = by_midx[w.midx[(cname, mname, "V", ())]] if lazy else dx.get_encoded_method_descriptor(cname, mname, "()V")
             ins = [i for i in em.get_instructions() if i.get_op_value() == 0x1A]
             const_ins.append((ins[pos], s))
         current = {id(it): it["orig"] for it in items}
@@ -156,7 +181,8 @@ def shard(ctx, arg):
                     else:
                         mech = "rename-divergence-%s-%s" % (it["kind"], "never-renamed" if never else "renamed")
                     ctx.violation(mech, "an item does not report its most recent name", {"item": [it["kind"], it["key"]], "got": got, "want": want, "known_mechanism_predicts": shown[id(it)], "history": history})
-                    failed = True
+                    if mech not in KNOWN_MECHS:
+                        failed = True  # a history goes on after a divergence that is exactly the known mechanism (the simulation keeps explaining it)
             for ins, s in const_ins:
                 ctx.count("constants_compared")
                 got = ins.get_string()
@@ -164,7 +190,8 @@ def shard(ctx, arg):
                     shared = [y for y in renamed if y["orig"] == s]
                     mech = "string-constant-changed-by-rename-of-item-with-equal-name" if (shared and got == hook.get(s, s)) else "string-constant-changed"
                     ctx.violation(mech, "a string constant in code changed after a rename", {"constant": s, "got": got, "history": history})
-                    failed = True
+                    if mech not in KNOWN_MECHS:
+                        failed = True
             if failed:
                 break
         names = [it["orig"] for it in items]
